@@ -148,6 +148,14 @@ func registerVF(P *Program) {
 	r("Not", func(in *Interp, args []Value) Value { return in.ts.Not(args[0].(*Term)) })
 	r("Iff", func(in *Interp, args []Value) Value { return in.ts.Eq(args[0].(*Term), args[1].(*Term)) })
 	r("Eq", func(in *Interp, args []Value) Value { return in.deepEq(args[0], args[1]) })
+	r("NoLeak", func(in *Interp, args []Value) Value {
+		var secrets []Value
+		if sl, ok := args[2].(SliceV); ok {
+			secrets = sl.A
+		}
+		in.noLeak(argStr(args[0]), args[1], secrets)
+		return nil
+	})
 	r("EqLoose", func(in *Interp, args []Value) Value {
 		in.looseEq = true
 		defer func() { in.looseEq = false }()
